@@ -132,6 +132,7 @@ pub fn fault_name(k: &FaultKind) -> &'static str {
         FaultKind::BitFlip { seg: Seg::Payload, .. } => "BitFlip(payload)",
         FaultKind::BitFlip { seg: Seg::Footer, .. } => "BitFlip(footer)",
         FaultKind::CharSubst { .. } => "CharSubst",
+        FaultKind::CharNext { .. } => "CharNext",
         FaultKind::Truncate { .. } => "Truncate",
         FaultKind::Extend { .. } => "Extend",
         FaultKind::ExtendDecoded { .. } => "ExtendDecoded",
@@ -266,6 +267,11 @@ pub fn content_matches(content: &Content, out: &Outcome) -> bool {
         (Content::Str(s), Outcome::OkStr(o)) => s == o,
         (Content::Str(s), Outcome::OkJson(j)) => match serde_json::from_str::<Value>(s) {
             Ok(v) => &v == j,
+            Err(_) => false,
+        },
+        (Content::Claims(_), Outcome::OkStr(s)) => match serde_json::from_str::<Value>(s) {
+            // a builder-made token read through the core layer: compare the JSON it carries
+            Ok(v) => content_matches(content, &Outcome::OkJson(v)),
             Err(_) => false,
         },
         (Content::Claims(m), Outcome::OkJson(Value::Object(o))) => {
@@ -1152,45 +1158,36 @@ fn judge_deliver(
     }
 
     // ---------------------------------------------------------------------------------------
-    // verbatim deliveries with one mismatching dimension: C04 / C05 / C06
-    if !key_match {
-        if footer_match && assert_match {
-            cx.clause(
-                "C04",
-                "other_key_rejected",
-                idx,
-                out.is_err(),
-                "Err",
-                out.short(),
-                &[("proto", root.proto.name().into()), ("layer", format!("{:?}", v.layer)), ("site", panic_site.clone())],
-            );
+    // verbatim deliveries with a mismatching dimension: C04 / C05 / C06
+    if !key_match || !footer_match || !assert_match {
+        let facts = [
+            ("proto", root.proto.name().to_string()),
+            ("layer", format!("{:?}", v.layer)),
+            ("site", panic_site.clone()),
+            ("token_footer", format!("{:?}", root.footer)),
+            ("expected_footer", format!("{:?}", v.footer)),
+            ("token_assertion", format!("{:?}", root.assertion)),
+            ("expected_assertion", format!("{:?}", v.assertion)),
+        ];
+        if !key_match {
+            cx.clause("C04", "other_key_rejected", idx, out.is_err(), "Err", out.short(), &facts);
+            if let Some(t) = twin {
+                cx.clause("C04", "other_key_rejected", idx, t.outcome.is_err(), "Err (fresh parser)", t.outcome.short(), &facts);
+            }
         }
-        return;
-    }
-    if !footer_match {
-        if assert_match {
-            cx.clause(
-                "C05",
-                "other_footer_rejected",
-                idx,
-                out.is_err(),
-                "Err",
-                out.short(),
-                &[("proto", root.proto.name().into()), ("layer", format!("{:?}", v.layer)), ("token_footer", format!("{:?}", root.footer)), ("expected_footer", format!("{:?}", v.footer))],
-            );
+        if !footer_match {
+            cx.clause("C05", "other_footer_rejected", idx, out.is_err(), "Err", out.short(), &facts);
         }
-        return;
-    }
-    if !assert_match {
-        cx.clause(
-            "C06",
-            "other_assertion_rejected",
-            idx,
-            out.is_err(),
-            "Err",
-            out.short(),
-            &[("proto", root.proto.name().into()), ("layer", format!("{:?}", v.layer)), ("token_assertion", format!("{:?}", root.assertion)), ("expected_assertion", format!("{:?}", v.assertion))],
-        );
+        if !assert_match {
+            cx.clause("C06", "other_assertion_rejected", idx, out.is_err(), "Err", out.short(), &facts);
+            if !footer_match {
+                let cat = |f: &Option<String>, a: &Option<String>| format!("{}{}", f.as_deref().unwrap_or(""), a.as_deref().unwrap_or(""));
+                if cat(&root.footer, &root.assertion) == cat(&v.footer, &v.assertion) {
+                    cx.clause("C06", "resplit_of_footer_and_assertion_rejected", idx, out.is_err(), "Err", out.short(), &facts);
+                    cx.j.probe("footer_assertion_resplit_presented");
+                }
+            }
+        }
         return;
     }
 
@@ -1351,7 +1348,7 @@ fn judge_deliver(
 
     // ---------------- C16
     if is_parser_layer && !v.validators.is_empty() && json_obj {
-        judge_validators(cx, idx, &root, &v, main, twin, &json, &rejecting, expectations_fail, time_tri, control_ok);
+        judge_validators(cx, idx, &root, &v, main, twin, &json, &rejecting, expectations_fail || numeric_lat, time_tri, control_ok);
     }
     if v.default_validators && v.layer == Layer::Batteries && json_obj && out.is_ok() {
         // default validators observed through the clock seam: each runs exactly once on success
@@ -1784,4 +1781,24 @@ fn finish(cx: &mut Ctx) {
             cx.unjudged(pp, "token_not_read_back");
         }
     }
+}
+
+/// For scenario-specific judges that add clauses computed from extra executions (C10's entropy arms).
+#[allow(clippy::too_many_arguments)]
+pub fn add_clause(j: &mut Judgement, prop: &str, name: &str, event: usize, ok: bool, expected: &str, observed: String, facts: &[(&str, String)]) {
+    let cname = format!("{}.{}", prop, name);
+    *j.clauses.entry(cname.clone()).or_insert(0) += 1;
+    j.evaluations += 1;
+    j.trace.push(format!("{}:{}", cname, if ok { "held" } else { "VIOLATED" }));
+    if !ok {
+        let mut f = BTreeMap::new();
+        for (k, v) in facts {
+            f.insert(k.to_string(), v.clone());
+        }
+        j.violations.push(Violation { event, property: prop.to_string(), clause: cname, expected: expected.to_string(), observed, facts: f });
+    }
+}
+
+pub fn add_probe(j: &mut Judgement, name: &str) {
+    *j.probes.entry(name.to_string()).or_insert(0) += 1;
 }
